@@ -200,3 +200,44 @@ func ZZ_C11_RechargeThenRequest() {
 		vx.Assert("release after the recharge answered 204", vx.HTTPStatus(c) == 204)
 	}
 }
+
+// C11 (large records): a session whose record outgrows 65535 octets - over two
+// updates or with one very large report, with or without an earlier partial
+// record (update carrying a non-FINAL trigger) - is answered without a panic,
+// no lock is left held and the next update is answered.
+//
+//gosx:property=C11 tier=quick unwind=40 timeout=30000
+func ZZ_C11_RecordSplit() {
+	p := zzSetup()
+	zzAccount(zzSupi, 1, 1000000, 10)
+	c0 := &gin.Context{}
+	p.HandleChargingdataInitial(c0, zzCreateReq("create", zzSupi))
+	loc := vx.HTTPHeader(c0, "Location")
+	vx.Assume(strings.HasPrefix(loc, zzRefPrefix))
+	ref := loc[len(zzRefPrefix):]
+	// (a) offline usage growing over two updates; (b) one very large online
+	// report together with a non-FINAL trigger (split and partial record in
+	// one request); (c) online reports with a trigger, growing over two updates
+	scenario := vx.Choice("scenario", 3)
+	sizes := [][]int{{30000, 45000, 5}, {70000, 5}, {30000, 45000}}[scenario]
+	for i, sz := range sizes {
+		u, _ := zzUsageInd("u"+string(rune('0'+i)), 1, 1, 1)
+		zzSmallUsage(&u)
+		u.UPFID = zzLongString(sz)
+		req := models.ChfConvergedChargingChargingDataRequest{SubscriberIdentifier: zzSupi,
+			MultipleUnitUsage: []models.ChfConvergedChargingMultipleUnitUsage{u}}
+		if scenario > 0 {
+			u.UsedUnitContainer[0].QuotaManagementIndicator = models.QuotaManagementIndicator_ONLINE_CHARGING
+			if i == 0 || scenario == 2 {
+				req.Triggers = []models.ChfConvergedChargingTrigger{{TriggerType: models.ChfConvergedChargingTriggerType_VOLUME_LIMIT, TriggerCategory: models.TriggerCategory_IMMEDIATE_REPORT}}
+			}
+		}
+		c := &gin.Context{}
+		zzNoPanic("update handler panicked", func() { p.HandleChargingdataUpdate(c, req, ref) })
+		vx.Assert("update answered 2xx or 4xx", zzStatus2xx(c) || zzStatus4xx(c))
+		vx.Assert("no lock left held", vx.LocksHeld() == 0)
+		if vx.LocksHeld() != 0 {
+			return
+		}
+	}
+}
